@@ -20,11 +20,15 @@ FLAVOURS = [("sync",), ("sync", "-h"), ("sync", "-N")]
 SIZE = 2500
 
 
-def build(L, nsec, partial):
+def build(L, nsec, partial, long_on=None):
     """base array; returns mtime of the original"""
     for d in L.cfg.disknames:
         X.apply_op(L, ("write", d, "anchor", 700, 0))
     X.apply_op(L, ("write", "d2", "other", 3000, 0))
+    if long_on:
+        # a long synced file on the disk that will NOT receive the look-alike: whatever stripes the look-alike is allocated
+        # on (the first free positions of its own, shorter disk), this disk has synced blocks there
+        X.apply_op(L, ("write", long_on, "big", 30000, 0))
     r = L.run("sync")
     assert r.rc == 0, r.text()
     mt = X.file_mtime_ns("dir/a", SIZE, 0, nsec)
@@ -52,16 +56,27 @@ def decoy_bytes(orig, kind, bs=1024):
 
 
 def job(j):
-    levels, target, nsec, decoy, partial, flavour, seed = j
+    levels, target, nsec, decoy, partial, flavour, seed = j[:7]
+    silent = j[7] if len(j) > 7 else False
     cfg = Config(levels=levels, ndisks=2)
     v = []
-    where = "%s nsec=%d decoy=%s partial=%s %s" % (target, nsec, decoy, partial, " ".join(flavour))
+    where = "%s nsec=%d decoy=%s partial=%s silent-error-in-stripe=%s %s" % (target, nsec, decoy, partial, silent, " ".join(flavour))
     with labmod.Lab(cfg, seed=seed) as L:
-        mt = build(L, nsec, partial)
-        orig = L.read("d1", "dir/a")
         td, tp = TARGETS[target]
+        od = "d2" if td == "d1" else "d1"
+        mt = build(L, nsec, partial, od if silent else None)
+        orig = L.read("d1", "dir/a")
         dbytes = decoy_bytes(orig, decoy)
         L.write(td, tp, dbytes, mt)
+        if silent:
+            # every block of the long synced file on the OTHER disk is silently damaged (size and time-stamp kept): each stripe
+            # the look-alike lands on then also holds one silent error, which sync may repair on the fly - without thereby
+            # accepting the look-alike
+            from vp import faults
+            c0 = L.content()
+            fbig = next(x for x in c0.disks[od.encode()].files if x.sub.decode() == "big")
+            for st_, pos_, h_ in fbig.blocks:
+                faults.damage_data_block(L, c0, od, pos_, "flip0")
         par_before = {l: L.parity_stream(l) for l in range(levels)}
         res = L.run(flavour[0], *flavour[1:])
         c = L.content()
@@ -81,7 +96,7 @@ def job(j):
                 if st == C.BLK and P.block_hash(c, pos, blk) != h:
                     v.append(dict(kind="block-recorded-synced-with-foreign-hash", where=where, block=i))
         if "-N" in flavour:
-            if res.rc != 0:
+            if res.rc != 0 and not silent:      # with silent errors planted the sync legitimately ends with errors
                 v.append(dict(kind="nocopy-sync-failed", where=where, out=res.text()[-300:]))
             if copies:
                 v.append(dict(kind="copy-detected-despite-force-nocopy", where=where))
@@ -114,7 +129,7 @@ def job(j):
                         F.lose_parity(L, l)
                 exempt = C05.exempt_files(c2, L.snap())
                 before = L.snap()
-                r = L.run("fix", *fix_opts)
+                r = C05.run_fix(L, fix_opts)
                 w2 = where + " | lost original%s, fix %s" % (" + all parity" if lose_parity else "", " ".join(fix_opts))
                 for o in C05.fix_oracle(L, c2, r, before, (), w2, exempt):
                     if o["kind"] in ("unknown-path-written",):
@@ -139,6 +154,8 @@ def run(ctx):
                     % (targets, decoys, FLAVOURS, levels))
     jobs = [(l, t, ns, d, p, f, ctx.seed) for l in levels for t in targets for ns in (0, 500) for d in decoys
             for p in (False, True) for f in FLAVOURS]
+    # the same matrix with a silent error in every stripe the look-alike occupies, on 2 parity levels (on-the-fly repair possible)
+    jobs += [(2, t, ns, d, False, f, ctx.seed, True) for t in targets for ns in (0, 500) for d in decoys for f in FLAVOURS]
     evals = 0
     done = 0
     for j, r in par.pmap(job, jobs, deadline=ctx.deadline):
@@ -146,10 +163,10 @@ def run(ctx):
         evals += 5
         ctx.outcome(r["outcome"])
         if r["outcome"][1] or j[3] != "none":
-            ctx.nontrivial(j[:6])
+            ctx.nontrivial(j[:6] + j[7:])
         for v in r["viols"]:
             ctx.violation("C19/%s" % v["kind"], "%s: %s" % (v["kind"], v.get("where")),
-                          dict(levels=j[0], target=j[1], nsec=j[2], decoy=j[3], partial=j[4], flavour=j[5], violation=v))
+                          dict(levels=j[0], target=j[1], nsec=j[2], decoy=j[3], partial=j[4], flavour=j[5], silent=(j[7] if len(j) > 7 else False), violation=v))
         if done in (5, 60):
             ctx.sample(dict(levels=j[0], target=j[1], nsec=j[2], decoy=j[3], partial_source=j[4], flavour=j[5], outcome=r["outcome"]))
     if done < len(jobs):
@@ -163,7 +180,7 @@ def run(ctx):
 
 
 def replay(r):
-    out = job((r["levels"], r["target"], r["nsec"], r["decoy"], r["partial"], tuple(r["flavour"]), 0))
+    out = job((r["levels"], r["target"], r["nsec"], r["decoy"], r["partial"], tuple(r["flavour"]), 0, r.get("silent", False)))
     for v in out["viols"]:
         print("  ", v)
     return not out["viols"]
